@@ -14,6 +14,7 @@
                                              -> <r1>,<r2>,<r3>: encrypt(msg, a, bpub), then ON THE RETURNED OBJECT (no serialisation)
                                                 decrypt with (b, apub), (b2, apub), (b, a2pub); then the same three through
                                                 PrivateKey::decrypt_message: <r4>,<r5>,<r6>
+     ecies.key_history d msg                 -> OK:<pub>;<pub after compress_public_key(false)>;<pub after (true) again>;<serialised>;<message>
      ecies.sweep    a b excl seed start step count
                                              -> OK:<wire length>.<checksum of the serialised bytes>.<1 iff parse+decrypt returns the message>,...
                                                 for the message lengths start, start+step, ... (one ECDH per direction for the whole case)
@@ -90,14 +91,18 @@ Definition dec_ser (k : cipher_keys) (ser : bytes) (haspk : bool) : outcome byte
 Definition eph_scalar (msg : bytes) : Z := 1 + (be_Z (sha256 msg)) mod (secp_n - 1).
 
 Definition run (op : string) (args : list string) : string :=
-  match op, args with
-  | "ecies.encrypt", [a; cf; bp; m; x] =>
+  if String.eqb op "ecies.encrypt" then
+      match args with
+      | [a; cf; bp; m; x] =>
       match arg_priv a, arg_bool cf, arg_pub bp, expand m, arg_bool x with
       | KGood d, Some _, KGood (pb, B), Some msg, Some excl => out3 (impl_encrypt d pb msg excl) (spec_encrypt d B msg excl) "-"
       | KBad, _, _, _, _ | _, None, _, _, _ | _, _, KBad, _, _ | _, _, _, None, _ | _, _, _, _, None => "BADARG"
       | _, _, _, _, _ => "ERR|-|-"
       end
-  | "ecies.encrypt_wif", [w; bp; m; x] =>
+      | _ => "BADARG" end
+  else if String.eqb op "ecies.encrypt_wif" then
+      match args with
+      | [w; bp; m; x] =>
       match expand w, arg_pub bp, expand m, arg_bool x with
       | Some wb, KGood (pb, B), Some msg, Some excl =>
           match from_wif (string_of_bytes wb) with
@@ -107,7 +112,10 @@ Definition run (op : string) (args : list string) : string :=
       | None, _, _, _ | _, KBad, _, _ | _, _, None, _ | _, _, _, None => "BADARG"
       | _, _, _, _ => "ERR|-|-"
       end
-  | "ecies.pub", [a; b; bc; m] =>
+      | _ => "BADARG" end
+  else if String.eqb op "ecies.pub" then
+      match args with
+      | [a; b; bc; m] =>
       (* PublicKey(b, encoding bc)::encrypt_message(msg, a); then PrivateKey(b)::decrypt_message on the object and through bytes *)
       match arg_priv a, arg_priv b, arg_bool bc, expand m with
       | KGood da, KGood db, Some bcomp, Some msg =>
@@ -123,7 +131,10 @@ Definition run (op : string) (args : list string) : string :=
       | KInvalid, _, _, _ | _, KInvalid, _, _ => "ERR|-|-"
       | _, _, _, _ => "BADARG"
       end
-  | "ecies.keys", [d; p] =>
+      | _ => "BADARG" end
+  else if String.eqb op "ecies.keys" then
+      match args with
+      | [d; p] =>
       (* ECIES::derive_cipher_keys *)
       match arg_priv d, arg_pub p with
       | KGood dd, KGood (pb, B) =>
@@ -134,7 +145,10 @@ Definition run (op : string) (args : list string) : string :=
       | KBad, _ | _, KBad => "BADARG"
       | _, _ => "ERR|-|-"
       end
-  | "ecies.decrypt", [b; ap; s; h] =>
+      | _ => "BADARG" end
+  else if String.eqb op "ecies.decrypt" then
+      match args with
+      | [b; ap; s; h] =>
       match arg_priv b, arg_pub ap, expand s, arg_bool h with
       | KGood d, KGood (pa, A), Some ser, Some haspk =>
           out3 (show_o show_msg (do c <- from_bytes O ser haspk; decrypt O c d pa))
@@ -142,7 +156,10 @@ Definition run (op : string) (args : list string) : string :=
       | KBad, _, _, _ | _, KBad, _, _ | _, _, None, _ | _, _, _, None => "BADARG"
       | _, _, _, _ => "ERR|-|-"
       end
-  | "ecies.parse", [s; h] =>
+      | _ => "BADARG" end
+  else if String.eqb op "ecies.parse" then
+      match args with
+      | [s; h] =>
       match expand s, arg_bool h with
       | Some ser, Some haspk =>
           out3 (show_o show_parse (from_bytes O ser haspk))
@@ -155,7 +172,10 @@ Definition run (op : string) (args : list string) : string :=
                 end) "-"
       | _, _ => "BADARG"
       end
-  | "ecies.flip", [b; ap; s; h; i] =>
+      | _ => "BADARG" end
+  else if String.eqb op "ecies.flip" then
+      match args with
+      | [b; ap; s; h; i] =>
       match arg_priv b, arg_pub ap, expand s, arg_bool h, N_of_dec i with
       | KGood d, KGood (pa, A), Some ser, Some haspk, Some bit =>
           if (N.of_nat (length ser) * 8 <=? bit)%N then "BADARG"
@@ -168,21 +188,34 @@ Definition run (op : string) (args : list string) : string :=
       | KBad, _, _, _, _ | _, KBad, _, _, _ | _, _, None, _, _ | _, _, _, None, _ | _, _, _, _, None => "BADARG"
       | _, _, _, _, _ => "ERR|-|-"
       end
-  | "ecies.mem", [a; bp; b; ap; b2; a2p; m; x] =>
+      | _ => "BADARG" end
+  else if String.eqb op "ecies.mem" then
+      match args with
+      | [a; bp; b; ap; b2; a2p; m; x] =>
       match arg_priv a, arg_pub bp, arg_priv b, arg_pub ap, arg_priv b2, arg_pub a2p, expand m, arg_bool x with
       | KGood da, KGood (pb, _), KGood db, KGood (pa, _), KGood db2, KGood (pa2, _), Some msg, Some excl =>
           let three (c : ciphertext) :=
             show_o show_msg (decrypt O c db pa) +++ "," +++ show_o show_msg (decrypt O c db2 pa) +++ ","
             +++ show_o show_msg (decrypt O c db pa2) in
+          (* then: the right keys once more, to_bytes unchanged (1), and on the object parsed back from those bytes:
+             wrong recipient, right keys, get_cipher_keys *)
           out3 (match encrypt O msg da pb excl with
                 | Ok c => three c +++ "," +++ three c      (* PrivateKey::decrypt_message = decrypt_impl *)
+                          +++ "," +++ show_o show_msg (decrypt O c db pa) +++ ",1,"
+                          +++ match from_bytes O (to_bytes c) (negb excl) with
+                              | Ok c' => show_o show_msg (decrypt O c' db2 pa) +++ "," +++ show_o show_msg (decrypt O c' db pa) +++ ",none"
+                              | _ => "ERR"
+                              end
                 | Err => "ERR" | Panic => "PANIC" end)
-               (let r := show_msg msg +++ ",ERR,ERR" in r +++ "," +++ r) "-"
+               (let r := show_msg msg +++ ",ERR,ERR" in r +++ "," +++ r +++ "," +++ show_msg msg +++ ",1,ERR," +++ show_msg msg +++ ",none") "-"
       | KInvalid, _, _, _, _, _, _, _ | _, KInvalid, _, _, _, _, _, _ | _, _, KInvalid, _, _, _, _, _
       | _, _, _, KInvalid, _, _, _, _ | _, _, _, _, KInvalid, _, _, _ | _, _, _, _, _, KInvalid, _, _ => "ERR|-|-"
       | _, _, _, _, _, _, _, _ => "BADARG"
       end
-  | "ecies.sweep", [a; b; x; sd; st; sp; cn] =>
+      | _ => "BADARG" end
+  else if String.eqb op "ecies.sweep" then
+      match args with
+      | [a; b; x; sd; st; sp; cn] =>
       match arg_priv a, arg_priv b, arg_bool x, N_of_dec sd, N_of_dec st, N_of_dec sp, N_of_dec cn with
       | KGood da, KGood db, Some excl, Some seed, Some start, Some step, Some count =>
           if (64 <? count)%N || (100000 <? start + step * count)%N then "BADARG"
@@ -224,7 +257,10 @@ Definition run (op : string) (args : list string) : string :=
       | KInvalid, _, _, _, _, _, _ | _, KInvalid, _, _, _, _, _ => "ERR|-|-"
       | _, _, _, _, _, _, _ => "BADARG"
       end
-  | "ecies.self", [a; cf; m] =>
+      | _ => "BADARG" end
+  else if String.eqb op "ecies.self" then
+      match args with
+      | [a; cf; m] =>
       match arg_priv a, arg_bool cf, expand m with
       | KGood d, Some comp, Some msg =>
           let own := to_public_key O d comp in
@@ -238,7 +274,10 @@ Definition run (op : string) (args : list string) : string :=
       | KBad, _, _ | _, None, _ | _, _, None => "BADARG"
       | _, _, _ => "ERR|-|-"
       end
-  | "ecies.ephemeral", [b; m] =>
+      | _ => "BADARG" end
+  else if String.eqb op "ecies.ephemeral" then
+      match args with
+      | [b; m] =>
       match arg_priv b, expand m with
       | KGood d, Some msg =>
           let r := eph_scalar msg in
@@ -252,8 +291,27 @@ Definition run (op : string) (args : list string) : string :=
       | KBad, _ | _, None => "BADARG"
       | _, _ => "ERR|-|-"
       end
-  | _, _ => match op with
-            | "ecies.keys" | "ecies.mem" | "ecies.sweep" | "ecies.encrypt" | "ecies.encrypt_wif" | "ecies.pub" | "ecies.decrypt" | "ecies.parse" | "ecies.flip" | "ecies.self" | "ecies.ephemeral" => "BADARG"
-            | _ => "BADOP"
-            end
-  end.
+      | _ => "BADARG" end
+  else if String.eqb op "ecies.key_history" then
+      (* one PrivateKey value through compress_public_key(false) / (true): its public key after each step, then
+         encrypt_message with the uncompressed-flagged key, decrypted with the re-compressed one *)
+      match args with
+      | [a; m] =>
+      match arg_priv a, expand m with
+      | KGood d, Some msg =>
+          let p1 := to_public_key O d true in
+          let p2 := to_public_key O d false in
+          out3 (show_o (fun c => "OK:" +++ hex_of_bytes p1 +++ ";" +++ hex_of_bytes p2 +++ ";" +++ hex_of_bytes p1 +++ ";" +++
+                                 show_bytes (to_bytes c) +++ ";" +++
+                                 match priv_decrypt_message O d c p2 with Ok p => show_bytes p | _ => "ERR" end)
+                       (priv_encrypt_message O d false msg))
+               (let P := ec_smul E d (ec_G E) in
+                match bie1_encrypt E d P true msg with
+                | Some s => "OK:" +++ hex_of_bytes (ec_enc E true P) +++ ";" +++ hex_of_bytes (ec_enc E false P) +++ ";"
+                            +++ hex_of_bytes (ec_enc E true P) +++ ";" +++ show_bytes s +++ ";" +++ show_bytes msg
+                | None => "ERR" end) "-"
+      | KBad, _ | _, None => "BADARG"
+      | _, _ => "ERR|-|-"
+      end
+      | _ => "BADARG" end
+  else "BADOP".
